@@ -148,16 +148,18 @@ type client struct {
 	ref    *refConsumer
 	refCID media.CID
 
-	conn   net.Conn // rtsp/tcp, rtsp/udp control connection
-	resps  chan string
-	udp    [4]*net.UDPConn
-	ws     *websocket.Conn // ws-rtsp, wsp control, ws-flv
-	wsData *websocket.Conn // wsp data channel
-	wmu    sync.Mutex
-	chanID string
-	cseq   int
-	cancel context.CancelFunc // http-flv
+	conn     net.Conn // rtsp/tcp, rtsp/udp control connection
+	resps    chan string
+	udp      [4]*net.UDPConn
+	ws       *websocket.Conn // ws-rtsp, wsp control, ws-flv
+	wsData   *websocket.Conn // wsp data channel
+	wmu      sync.Mutex
+	chanID   string
+	cseq     int
+	cancel   context.CancelFunc // http-flv
 	stopped  bool
+	stream   *media.Stream // the stream it attached to
+	genEnd   int           // packets published when its stream was replaced (-1: still current)
 	nonce    []byte
 	attached bool
 }
@@ -646,10 +648,13 @@ func publishViaSession() (net.Conn, error) {
 
 // ---------------------------------------------------------------- one case
 // case = (refs packets clients events how)
-//   packets = ((channel data) ..)   clients = ((kind (m0 m1 m2 m3) (delivered-index ..)) ..)
-//   events = ((0 n) publish n | (1 i) attach | (2 i mode) stop | (3) end)   how: 1 Close, 2 replaced, 3 idle
+//
+//	packets = ((channel data) ..)   clients = ((kind (m0 m1 m2 m3) (delivered-index ..)) ..)
+//	events = ((0 n) publish n | (1 i) attach | (2 i mode) stop | (3) end)   how: 1 Close, 2 replaced, 3 idle
+//
 // observation = ((client ..) (snapshot ..) note)
-//   client = (received reference ended)   snapshot = (cc rtsp flv wsp (ended ..) media-cc)
+//
+//	client = (received reference ended)   snapshot = (cc rtsp flv wsp (ended ..) media-cc)
 func Run(c Val) Val {
 	start()
 	refs, pkts, cls, evs, how := c.At(0).Bool(), c.At(1).List(), c.At(2).List(), c.At(3).List(), c.At(4).Int()
@@ -679,9 +684,10 @@ func Run(c Val) Val {
 	if stream == nil {
 		return L(S("!setup"), S("no stream"))
 	}
+	streams := []*media.Stream{stream}
 	clients := make([]*client, len(cls))
 	for i, cv := range cls {
-		cl := &client{kind: cv.At(0).Int()}
+		cl := &client{kind: cv.At(0).Int(), genEnd: -1}
 		if len(pkts) > 0 && len(pkts[0].At(1).Bytes()) >= 12 {
 			cl.nonce = pkts[0].At(1).Bytes()[8:12]
 		}
@@ -707,9 +713,15 @@ func Run(c Val) Val {
 			ended[i] = Bo(cl.isEnded())
 		}
 		_, mcc := media.Count()
-		snaps = append(snaps, L(I(int64(stream.ConsumerCount())),
+		total := 0
+		gens := make([]Val, len(streams))
+		for i, st := range streams {
+			gens[i] = I(int64(st.ConsumerCount()))
+			total += st.ConsumerCount()
+		}
+		snaps = append(snaps, L(I(int64(total)),
 			I(stats.RtspConns.GetSample().Active-base[0]), I(stats.FlvConns.GetSample().Active-base[1]),
-			I(stats.WspConns.GetSample().Active-base[2]), L(ended...), I(int64(mcc))))
+			I(stats.WspConns.GetSample().Active-base[2]), L(ended...), I(int64(mcc)), L(gens...)))
 	}
 	published := 0
 	attachedAt := make([]int, len(clients))
@@ -734,7 +746,11 @@ func Run(c Val) Val {
 			for replay < len(all) && int(all[replay].Int()) < attachedAt[i] {
 				replay++
 			}
-			upto := replay + (published - attachedAt[i])
+			live := published
+			if cl.genEnd >= 0 && cl.genEnd < live {
+				live = cl.genEnd // its stream has lost its publisher
+			}
+			upto := replay + (live - attachedAt[i])
 			if upto > len(all) {
 				upto = len(all)
 			}
@@ -775,6 +791,7 @@ func Run(c Val) Val {
 				return L(S("!setup"), S(err.Error()))
 			}
 			cl.attached = true
+			cl.stream = stream
 			if refs && cl.isFLV() {
 				cl.ref = &refConsumer{}
 				cl.refCID = stream.StartConsume(cl.ref, media.FLVPacket, "verif-reference")
@@ -784,16 +801,43 @@ func Run(c Val) Val {
 			i := int(e.At(1).Int())
 			cl := clients[i]
 			drained(3 * time.Second)
-			before := stream.ConsumerCount()
+			before := cl.stream.ConsumerCount()
 			cl.stop(e.At(2).Int())
 			if cl.ref != nil {
-				stream.StopConsume(cl.refCID)
+				cl.stream.StopConsume(cl.refCID)
 				before--
 			}
-			waitUntil(3*time.Second, func() bool { return cl.isEnded() && stream.ConsumerCount() < before })
+			waitUntil(3*time.Second, func() bool { return cl.isEnded() && cl.stream.ConsumerCount() < before })
+			settle()
+		case 4:
+			// a new publisher registers the path: the previous stream is retired, alive while it has consumers
+			drained(3 * time.Second)
+			for _, cl := range clients {
+				if cl.attached && cl.genEnd < 0 {
+					cl.genEnd = published
+				}
+			}
+			if needMcast {
+				pub2, err := publishViaSession()
+				if pub2 != nil {
+					defer pub2.Close()
+				}
+				if err != nil {
+					return L(S("!setup"), S(err.Error()))
+				}
+				stream = media.Get(streamPath)
+				base[0]++ // the second publisher's own RTSP connection
+			} else {
+				stream = media.NewStream(streamPath, sdpText)
+				media.Regist(stream)
+			}
+			streams = append(streams, stream)
 			settle()
 		default:
 			drained(3 * time.Second)
+			for _, old := range streams[:len(streams)-1] {
+				old.Close()
+			}
 			switch how {
 			case 2:
 				media.VerifCloseAs(stream, media.StreamReplaced)
@@ -825,4 +869,3 @@ func Run(c Val) Val {
 	}
 	return L(L(out...), L(snaps...), S(note))
 }
-
